@@ -65,7 +65,7 @@ CHECKS['C08'] = ('exploration',
 
 CHECKS['C14'] = ('fault_enumeration',
     'CrossHair/z3 path exploration over the fault schedule (boolean selectors); the real from_dict / finish / calculate run on every explored schedule against a dependency oracle',
-    'Exhaustive fault enumeration driven by the symbolic executor: all 8^3 x 2 schedules of {none, unknown function, _xlfn. unknown function, absent sheet, absent workbook, undefined name, #REF! literal, range on an absent sheet} over three dependent formula cells: loading, completion and calculation never raise; the faulted cell is #NAME? / #REF! as the statement assigns; cells that do not depend on it keep their fault-free values; dependents carry an error that IFERROR / ISERROR intercept.',
+    'Exhaustive fault enumeration driven by the symbolic executor: all 10^3 x 2 schedules of {none, unknown function, _xlfn. unknown function, absent sheet, absent workbook, undefined name, #REF! literal, range on an absent sheet, unreadable workbook file, two undefined names in one formula} over three dependent formula cells: loading, completion and calculation never raise; the faulted cell is #NAME? / #REF! as the statement assigns; cells that do not depend on it keep their fault-free values; dependents carry an error that IFERROR / ISERROR intercept.',
     'Dictionary-built 10-cell template only; file-level faults represented by references to absent books. Known finding C14-absent-range-overrides-known-cells printed from its witness. ' + TB,
     'DESIGN.md §3 C14')
 
